@@ -23,7 +23,7 @@ class C06(Engine):
     prop = "C06"
     name = "history-sim"
     level = "exploration"
-    expected_kinds = {"history", "listing_perm", "hashseed", "path_spelling", "mixed_levels", "io_error_in_history"}
+    expected_kinds = {"history", "listing_perm", "hashseed", "path_spelling", "mixed_levels", "io_error_in_history", "abort_point"}
     rule_text = ("A run is an explicit history of analyses in one process forked from a pristine zygote: all ordered pairs over a "
                  "~50-file stress pool (every distinct fatal raise site / internal-error site reachable from the pools, state-stressing "
                  "files, one of each ordinary class), seeded histories of length 3..8 with varying options, read faults in predecessors "
@@ -191,6 +191,40 @@ class C06(Engine):
                                                    "ops": [{"op": "api", "file": f, "fresh_registry": j == 0}
                                                            for j, f in enumerate(panel[part:part + 10])]}
 
+    def scenarios_abort_points(self):
+        """Abort-point enumeration: a predecessor cut at EVERY token boundary (so that it aborts, or ends, in every state
+        its analysis passes through), followed by fixed small victims. The predecessor itself is not compared."""
+        P = self.pools
+        q = self.tier == "quick"
+        from .. import faults
+        rng = core.derive_rng("c06.abort", self.seed, 0)
+        cands = [f for f in sorted(P.files) if P.meta[f]["group"] in ("corpus", "viol", "gen", "special_erroneous", "special_zoo")
+                 and len(P.files[f]["content"]) < 4000]
+        # predecessors that carry diagnostics of many kinds leave the most varied residue; plus a random few
+        # greedy cover: predecessors chosen so that every diagnostic code seen in the pool occurs in one of them (smallest files first)
+        codes_of = {f: set(d[1] for d in (P.alone[f].get("diags") or [])) for f in cands}
+        todo = set().union(*codes_of.values()) if codes_of else set()
+        rich = []
+        for f in sorted(cands, key=lambda f: len(P.files[f]["content"])):
+            if codes_of[f] & todo:
+                rich.append(f)
+                todo -= codes_of[f]
+            if len(rich) >= (14 if q else 60):
+                break
+        rnd = rng.sample(cands, min(len(cands), 4)) if q else list(cands)      # thorough: every pool program below 4 000 characters
+        victims = [f for f in sorted(P.files) if P.meta[f]["group"] in ("special_clean",)][:3]
+        idx = 7_000_000
+        for b in sorted(set(rich + rnd)):
+            f = P.files[b]
+            content = f["content"]
+            spans = faults.token_offsets(core.N, f["name"], content)
+            for k in range(1, len(spans)):
+                cut = spans[k][0]
+                yield idx, {"kind": "hist", "probe_state": True,
+                            "files": {"p": {"name": f["name"], "base": b, "splices": [[cut, len(content), ""]], "fault_desc": f"prefix_tok({k})"}},
+                            "ops": [{"op": "api", "file": "p", "no_compare": True}] + [{"op": "api", "file": v} for v in victims]}
+                idx += 1
+
     def scenarios_listing_bias(self):
         """Search bias (not an oracle): a listing permutation under which the derived order of the primary rules differs
         from the canonical one is a rare condition that can only exist when two primaries tie on priority. For such
@@ -214,7 +248,7 @@ class C06(Engine):
         out = []
         tf = tree_files(sc["tree"]) if sc.get("tree") else []
         for op in sc["ops"]:
-            if op["op"] == "api":
+            if op["op"] == "api" and not op.get("no_compare"):
                 out.append(ref_api(sc, op["file"], op.get("debug", 0), op.get("R")))
             elif op["op"] == "cli":
                 for p, fid in tf:
@@ -230,13 +264,17 @@ class C06(Engine):
         tf = dict(tree_files(sc["tree"])) if sc.get("tree") else {}
         for i, (op, o) in enumerate(zip(sc["ops"], ops)):
             delta = state_delta(pristine, o.get("state_before"))
+            if op["op"] == "api" and i > 0 and sc["ops"][0].get("no_compare") and "abort" not in (sc.get("tag") or "abort"):
+                pass
             if op["op"] == "api":
+                if op.get("faults") or op.get("no_compare"):
+                    continue      # a predecessor only (its own read was made to fail / it is a cut file): nothing to compare
                 key, _ = ref_api(sc, op["file"], op.get("debug", 0), op.get("R"))
                 ref = refs[key]
                 if ref.get("killed"):
                     continue
-                if op.get("faults"):
-                    continue      # an op whose own read was made to fail is a predecessor only; nothing to compare
+                if op.get("faults") or op.get("no_compare"):
+                    continue      # a predecessor only (its own read was made to fail / it is a cut file): nothing to compare
                 want = api_sig(ref["ops"][0])
                 got = api_sig(o)
                 if want[0] == "slow" or got[0] == "slow":
@@ -334,6 +372,8 @@ class C06(Engine):
         ops = r["ops"]
         if kind in ("pair", "hist", "mixed"):
             P = self.pools
+            if sc["ops"] and sc["ops"][0].get("no_compare"):
+                self.fire("abort_point")
             classes = []
             for op in sc["ops"]:
                 fid = op.get("file")
@@ -350,10 +390,10 @@ class C06(Engine):
                 d = state_delta(pristine, o.get("state_before"))
                 if d:
                     self.count("state_vectors_seen", ",".join(d))
-                    if "file" in sc["ops"][i - 1]:
+                    if sc["ops"][i - 1].get("file") in self.pools.files:
                         self.tainted_after.setdefault(sc["ops"][i - 1]["file"], set()).add(tuple(d))
             d = state_delta(pristine, r.get("final_state"))
-            if d and len(ops) >= 1 and "file" in sc["ops"][-1]:
+            if d and len(ops) >= 1 and sc["ops"][-1].get("file") in self.pools.files:
                 self.tainted_after.setdefault(sc["ops"][-1]["file"], set()).add(tuple(d))
             for op, o in zip(sc["ops"], ops):
                 if o.get("outcome") == "fatal" and o.get("site"):
@@ -429,6 +469,7 @@ class C06(Engine):
         self.stats["tainting_predecessors"] = {self.pools.files[t]["name"]: sorted(",".join(d) for d in self.tainted_after[t])
                                                for t in tainters[:20]}
         self.run_bulk(self.scenarios_phase2(tainters))
+        self.run_bulk(self.scenarios_abort_points())
         self.run_bulk(self.scenarios_listing_bias())
         self.hashseed_phase()
         self.recheck_killed()
